@@ -206,8 +206,8 @@ func Blocked() {
 		blockedSince = now
 	}
 	blockedLast = now
-	if now.Sub(blockedSince) > 20*time.Second {
-		panic("deadlock: the only running goroutine has been blocked on a lock or a sync.Once for 20 s")
+	if now.Sub(blockedSince) > 6*time.Second {
+		panic("deadlock: the only running goroutine has been blocked on a lock or a sync.Once for 6 s")
 	}
 	runtime.Gosched()
 }
